@@ -149,6 +149,11 @@ struct Minimiser<'a> {
     run_index: u64,
     scratch: PathBuf,
     tests: u64,
+    /// shrinking is best effort under a budget (it does not influence the verdict): once it is used
+    /// up every further candidate counts as "does not fail", so the current history is kept
+    started: std::time::Instant,
+    budgeted: bool,
+    exhausted: bool,
 }
 
 impl<'a> Minimiser<'a> {
@@ -165,6 +170,12 @@ impl<'a> Minimiser<'a> {
     }
 
     fn fails(&mut self, scs: &[Scenario]) -> Result<bool, String> {
+        let max_tests: u64 = std::env::var("VERIF_MIN_TESTS").ok().and_then(|v| v.parse().ok()).unwrap_or(600);
+        let max_secs: u64 = std::env::var("VERIF_MIN_SECS").ok().and_then(|v| v.parse().ok()).unwrap_or(300);
+        if self.budgeted && (self.tests >= max_tests || self.started.elapsed().as_secs() >= max_secs) {
+            self.exhausted = true;
+            return Ok(false);
+        }
         self.tests += 1;
         let file = self.scratch.join(format!("{}-cand-{}.json", self.p.id, std::process::id()));
         coord::write_json(&file, &self.doc(scs, ""))?;
@@ -219,7 +230,7 @@ pub fn minimise_and_report(p: &HistProp, seed: u64, tier: Tier, block_first: u64
     let class = vio["class"].as_str().ok_or("violation without class")?.to_string();
     let detail = vio["detail"].as_str().unwrap_or("").to_string();
     let failing = Scenario::from_json(&vio["scenario"])?;
-    let mut m = Minimiser { p, class: class.clone(), seed, run_index, scratch: coord::scratch_dir(), tests: 0 };
+    let mut m = Minimiser { p, class: class.clone(), seed, run_index, scratch: coord::scratch_dir(), tests: 0, started: std::time::Instant::now(), budgeted: false, exhausted: false };
 
     // 1. does the failing run fail on its own in a fresh process?
     let mut prefix: Vec<Scenario> = vec![];
@@ -236,6 +247,7 @@ pub fn minimise_and_report(p: &HistProp, seed: u64, tier: Tier, block_first: u64
                 "violation {class} of run {run_index} did not reproduce in a fresh process, neither alone nor after its block prefix: the harness or the code under test is not deterministic"
             ));
         }
+        m.budgeted = true;
         let fl = failing.clone();
         let mut err = None;
         prefix = coord::ddmin(&prefix, |cand| {
@@ -259,6 +271,7 @@ pub fn minimise_and_report(p: &HistProp, seed: u64, tier: Tier, block_first: u64
     }
 
     // 2. shrink the operations of the failing run
+    m.budgeted = true;
     let build = |prefix: &Vec<Scenario>, ops: &[Op], base: &Scenario| {
         let mut all = prefix.clone();
         let mut s = base.clone();
@@ -410,7 +423,11 @@ pub fn minimise_and_report(p: &HistProp, seed: u64, tier: Tier, block_first: u64
     // final detail from an in-fresh-process replay is what the user sees when replaying; keep
     // the original detail in the file for reference
     let path = coord::verif_root().join("replays").join(format!("{}-{}-{}.json", p.id, seed, run_index));
-    coord::write_json(&path, &m.doc(&scs, &detail))?;
+    let mut doc = m.doc(&scs, &detail);
+    if m.exhausted {
+        doc["minimisation"] = json!(format!("stopped at its budget after {} replays in fresh processes: the history may still contain operations that are not needed", m.tests));
+    }
+    coord::write_json(&path, &doc)?;
     if !coord::replay_reproduces(&path, &class)? {
         return Err("minimised replay file does not reproduce".into());
     }
@@ -632,7 +649,13 @@ fn cross_process_pass(p: &HistProp, seed: u64, tier: Tier, n: u64, same_seed_onl
     let same = same_seed_only.is_some() || index % 3 == 0;
     let cand_file = scratch.join(format!("{}-xproc-min-{}.json", p.id, std::process::id()));
     let mut err = None;
+    // best effort under a budget, as in minimise_and_report
+    let (min_started, mut min_tests) = (std::time::Instant::now(), 0u64);
     let mut differs = |ops: &[Op]| -> bool {
+        min_tests += 1;
+        if min_tests > 300 || min_started.elapsed().as_secs() >= 300 {
+            return false;
+        }
         let mut s = sc.clone();
         s.ops = ops.to_vec();
         let r = coord::write_json(&cand_file, &xproc_doc(p, seed, index, &variants_of(&s, same), "")).and_then(|_| xproc_compare(&cand_file));
